@@ -159,6 +159,10 @@ def honest_only(ev, v):
 
 def c01(c):
     thorough = c.tier == "thorough"
+    if runner.KEYS_NOT_SYNC:
+        # C01 quantifies over threads signing concurrently with ONE shared secret key: that needs the key type to be Sync
+        c.violation({"kind": "api", "what": "SecretKey / PublicKey / Signature is not Sync: one key object cannot be shared by concurrently signing threads"},
+                    {"message": "the harness only builds with one clone of the key per thread (cargo: `cannot be shared between threads safely`)"})
     c.cov["rule"] = ("honest signatures: keys x message lengths (0..70000, around the SHAKE rate) x both variants; every retry pattern of the "
                      "sign skeleton up to depth 3 (5 in thorough) generated by TLC from SignLoop.tla and forced through the fault taps; "
                      "scripted extreme generator outputs; 16 threads sharing one key (every 200th signature promoted). Each signature is one "
